@@ -80,6 +80,76 @@ def c06_case(draw):
     return c
 
 
+@st.composite
+def bcast_case(draw):
+    """an element-wise atom whose argument (a row) broadcasts against a column-shaped bound / offset / perspective scale: every one of
+    the k*n written constraints has to be enforced"""
+    n, k = draw(st.integers(2, 3)), draw(st.integers(1, 3))
+    what = draw(st.sampled_from(['square<=col', 'square+col<=c', 'col>=square', 'abs<=col', 'exp<=col', 'pexp_colscale<=t', 'plog_colscale>=t',
+                                 'square+colvar<=c']))
+    if what.startswith(('pexp', 'plog')):
+        k = n if draw(st.booleans()) else k        # same number of entries, other orientation
+    return {'kind': 'bcast', 'what': what, 'n': n, 'k': k, 'col': [draw(st.sampled_from([0.5, 1.0, 1.5, 2.0, 4.0])) for _ in range(k)],
+            'front': draw(st.sampled_from(['ro', 'dro'])), 'w': [draw(st.sampled_from([1.0, 2.0, 0.5])) for _ in range(n)]}
+
+
+def check_bcast(case):
+    import rsome as rso
+    from rsome import ro, dro, eco_solver
+    n, k, what = case['n'], case['k'], case['what']
+    col = np.array(case['col'], dtype=float).reshape(k, 1)
+    w = np.array(case['w'])
+    labels = ['kind:bcast', 'bcast:' + what, 'front:' + case['front']]
+    m = ro.Model() if case['front'] == 'ro' else dro.Model()
+    x = m.dvar(n)
+    m.st(x >= 0.05, x <= 10)
+    if what.startswith('plog'):
+        m.min(w @ x)       # plog is increasing in x: minimising makes the constraints bind
+    else:
+        m.max(w @ x)
+    cv = None
+    if what == 'square<=col':
+        m.st(rso.square(x) <= col)
+        lhs = lambda xv, cvv: np.square(xv)[None, :] - col
+    elif what == 'square+col<=c':
+        m.st(rso.square(x) + col <= 5.0)
+        lhs = lambda xv, cvv: np.square(xv)[None, :] + col - 5.0
+    elif what == 'col>=square':
+        m.st(col >= rso.square(x))
+        lhs = lambda xv, cvv: np.square(xv)[None, :] - col
+    elif what == 'abs<=col':
+        m.st(abs(x) <= col)
+        lhs = lambda xv, cvv: np.abs(xv)[None, :] - col
+    elif what == 'exp<=col':
+        m.st(rso.exp(x) <= col + 1.5)
+        lhs = lambda xv, cvv: np.exp(xv)[None, :] - col - 1.5
+    elif what == 'pexp_colscale<=t':
+        m.st(rso.pexp(x, col) <= 6.0)
+        lhs = lambda xv, cvv: col * np.exp(xv[None, :] / col) - 6.0
+    elif what == 'plog_colscale>=t':
+        m.st(rso.plog(x, col) >= -3.0)
+        lhs = lambda xv, cvv: -3.0 - col * np.log(xv[None, :] / col)
+    else:
+        cv = m.dvar((k, 1))
+        m.st(cv == col)
+        m.st(rso.square(x) + cv <= 5.0)
+        lhs = lambda xv, cvv: np.square(xv)[None, :] + col - 5.0
+    solver = eco_solver if what.startswith(('exp', 'pexp', 'plog', 'square', 'col')) else None
+    with quiet():
+        m.solve(solver, display=False)
+    sol = m.solution
+    if sol is None or sol.x is None or np.isnan(sol.objval) or 'lose' in str(sol.status):
+        return Outcome.skip('not_optimal', labels)
+    xv = np.asarray(x.get(), dtype=float).ravel()
+    res = lhs(xv, None)
+    worst = float(np.max(res))
+    if worst > 1e-4 * (1 + float(np.max(np.abs(col)))):
+        i, j = np.unravel_index(int(np.argmax(res)), res.shape)
+        return Outcome.fail('bcast:violated:' + what.split('<')[0].split('>')[0], 'the written constraint (%s, argument of shape (%d,), column of shape (%d, 1)) is '
+                            'violated at entry (%d, %d) of its %d x %d broadcast by %.4g at the returned x = %s' % (what, n, k, i, j, k, n, worst, xv.tolist()), labels)
+    return Outcome.ok(True, labels)
+
+
 def solver_choice(case):
     from rsome import eco_solver, grb_solver
     layer = detmodel.model_layer(case)
@@ -182,9 +252,11 @@ class C06(Prop):
         return 3200 if tier == 'quick' else 100000
 
     def strategy(self, tier):
-        return c06_case()
+        return st.integers(0, 7).flatmap(lambda k_: bcast_case() if k_ == 0 else c06_case())
 
     def check(self, case):
+        if case.get('kind') == 'bcast':
+            return check_bcast(case)
         labels = ['fam:' + case['fam'], 'front:' + case['front']] + ['atom:' + a['atom'] for a in case['atoms']] + \
                  ['cone:' + c['t'] for c in case['cones']]
         if case['obj'].get('atom'):
